@@ -53,6 +53,7 @@ def shards(tier, seed):
     out += [("buffer", i, min(i + per, n)) for i in range(0, n, per)]
     out += [("helperbuf", k) for k in range(6)]
     out.append(("scaled",))
+    out.append(("defaults",))
     return out
 
 
@@ -201,6 +202,49 @@ def run_helperbuf(r, k):
     r.sample({"content": repr(lead) + "+'q'*600", "chunk_sizes": "1..64", "field_limit": 100})
 
 
+def run_defaults(r):
+    """The limits a request gets when the application configures nothing: 324 parts are accepted, 325 are not (413), on both
+    Request.form accessors and both helpers; an upload just over the in-memory spool size (1 MiB) arrives intact."""
+    from baize.exceptions import HTTPException
+
+    boundary = b"bd"
+    for n in (323, 324, 325):
+        parts = [MP.part(f"k{i % 7}", None if i % 5 else "f.txt", b"v") for i in range(n)]
+        body = MR.encode(parts, boundary)
+        want = MR.expected_items(parts)
+        for name in ("parse_stream", "parse_async_stream", "wsgi_form", "asgi_form"):
+            for chunks in ([body], [body[i:i + 997] for i in range(0, len(body), 997)]):
+                r.count("evaluations")
+                r.count("distinct_nontrivial")
+                try:
+                    got = MP.PATHS[name](chunks, boundary, "utf-8")
+                    v = "ok" if got == want else "wrong-form"
+                except HTTPException as e:
+                    v = e.status_code
+                except Exception as e:  # noqa
+                    v = type(e).__name__
+                exp = "ok" if n <= 324 else 413
+                if v != exp:
+                    r.violation(f"defaults:{name}", {"mode": "defaults", "parts": n, "path": name}, f"{name} with default limits on a form of {n} parts (chunks of {len(chunks[0])} bytes): {v}, expected {exp}")
+    for size in (1024 * 1024 - 1, 1024 * 1024, 1024 * 1024 + 1):
+        data = bytes(i % 251 for i in range(size))
+        parts = [MP.part("f", None, b"before"), MP.part("u", "big.bin", data), MP.part("g", None, b"after")]
+        body = MR.encode(parts, boundary)
+        want = MR.expected_items(parts)
+        for name in ("wsgi_form", "asgi_form"):
+            r.count("evaluations")
+            r.count("distinct_nontrivial")
+            chunks = [body[i:i + 65536] for i in range(0, len(body), 65536)]
+            try:
+                got = MP.PATHS[name](chunks, boundary, "utf-8")
+                v = "ok" if got == want else "wrong-form"
+            except Exception as e:  # noqa
+                v = f"{type(e).__name__}: {e}"[:100]
+            if v != "ok":
+                r.violation(f"defaults:upload-spool:{name}", {"mode": "defaults", "size": size, "path": name}, f"{name}: an upload of {size} bytes (in-memory spool limit 1 MiB) gave {v}")
+    r.sample({"defaults": "forms of 323/324/325 parts with default limits; uploads of 1 MiB -1/0/+1"})
+
+
 def run_scaled(r, tier):
     from baize.multipart import MultipartDecoder, Data, NeedData
 
@@ -257,6 +301,8 @@ def run_shard(desc, tier):
         for k, v in c.items():
             r.count(k, v)
         r.sample({"boundary": boundary, "parts": MP_describe(parts), "bound": f"chunk + {len(boundary) + 4} + {SLACK}"})
+    elif desc[0] == "defaults":
+        run_defaults(r)
     elif desc[0] == "helperbuf":
         run_helperbuf(r, desc[1])
     else:
@@ -275,6 +321,8 @@ def replay(w):
         run_limits(r, w["form"])
     elif w["mode"] == "helperbuf":
         run_helperbuf(r, w["k"])
+    elif w["mode"] == "defaults":
+        run_defaults(r)
     elif w["mode"] == "scaled":
         run_scaled(r, "quick")
     else:
